@@ -481,6 +481,296 @@ theorem two_step_same_order (objs : List InSec) (obj : Str) (wild : Bool) (group
   exact two_step_segment_order objs obj wild groups hnd hpw
 
 
+/-! ### whole documents: several segments, each with its own partial object -/
+
+/-- some input statement of `B` selects `i`. -/
+def selectable (B : List Line) (i : InSec) : Bool :=
+  B.any fun l => match l with
+    | .input _ p m s w => selects p m s w i
+    | _ => false
+
+theorem isTaken_filter (p : InSec → Bool) (taken : List InSec) (i : InSec) (hi : p i = true) :
+    isTaken (taken.filter p) i = isTaken taken i := by
+  unfold isTaken
+  induction taken with
+  | nil => rfl
+  | cons a as ih =>
+    rw [List.filter_cons]
+    by_cases ha : p a = true
+    · simp only [ha, if_true, List.any_cons, ih]
+    · have : a ≠ i := fun e => ha (e ▸ hi)
+      simp only [ha, Bool.false_eq_true, if_false, List.any_cons, ih, this, decide_false, Bool.false_or]
+
+/-- **statements only see what they can select**: when every input statement of `B` selects
+only input sections satisfying `p`, everything else — in the object table and among what is
+already taken — is irrelevant. -/
+theorem takeSeq_restrict (p : InSec → Bool) : ∀ (B : List Line) (L taken : List InSec),
+    (∀ i, selectable B i = true → p i = true) →
+    takeSeq L taken B = takeSeq (L.filter p) (taken.filter p) B := by
+  intro B
+  induction B with
+  | nil => intro L taken _; rfl
+  | cons l rest ih =>
+    intro L taken h
+    have hrest : ∀ i, selectable rest i = true → p i = true := by
+      intro i hi
+      apply h i
+      unfold selectable at hi ⊢
+      simp only [List.any_cons, hi, Bool.or_true]
+    cases l with
+    | input k pth m sc w =>
+      simp only [takeSeq]
+      have hsel : takes.sel L pth m sc w taken = takes.sel (L.filter p) pth m sc w (taken.filter p) := by
+        unfold takes.sel
+        rw [List.filter_filter]
+        apply List.filter_congr
+        intro i _
+        by_cases hs : selects pth m sc w i = true
+        · have hp : p i = true := h i (by unfold selectable; simp only [List.any_cons, hs, Bool.true_or])
+          rw [isTaken_filter p taken i hp, hp]
+          simp
+        · simp [hs]
+      have hsub : ∀ i ∈ takes.sel L pth m sc w taken, p i = true := by
+        intro i hi
+        unfold takes.sel at hi
+        have := (List.mem_filter.1 hi).2
+        simp only [Bool.and_eq_true] at this
+        exact h i (by unfold selectable; simp only [List.any_cons, this.1, Bool.true_or])
+      rw [ih L _ hrest, ← hsel]
+      congr 2
+      rw [List.filter_append]
+      congr 1
+      exact List.filter_eq_self.2 hsub
+    | _ => simp only [takeSeq]; exact ih L taken hrest
+
+theorem takeSeq_mem (objs : List InSec) : ∀ (B : List Line) (taken : List InSec) (i : InSec),
+    i ∈ takeSeq objs taken B → i ∈ objs ∧ selectable B i = true := by
+  intro B
+  induction B with
+  | nil => intro taken i h; simp [takeSeq] at h
+  | cons l rest ih =>
+    intro taken i h
+    have lift : selectable rest i = true → selectable (l :: rest) i = true := by
+      intro hr; unfold selectable at hr ⊢; simp only [List.any_cons, hr, Bool.or_true]
+    cases l with
+    | input k pth m sc w =>
+      simp only [takeSeq] at h
+      rcases List.mem_append.1 h with h | h
+      · unfold takes.sel at h
+        have := List.mem_filter.1 h
+        simp only [Bool.and_eq_true] at this
+        exact ⟨this.1, by unfold selectable; simp only [List.any_cons, this.2.1, Bool.true_or]⟩
+      · obtain ⟨h1, h2⟩ := ih _ i h
+        exact ⟨h1, lift h2⟩
+    | _ =>
+      simp only [takeSeq] at h
+      obtain ⟨h1, h2⟩ := ih _ i h
+      exact ⟨h1, lift h2⟩
+
+/-- what is taken already does not matter when the statements cannot select any of it. -/
+theorem takeSeq_fresh (objs : List InSec) (B : List Line) (T : List InSec)
+    (hT : ∀ i ∈ T, selectable B i = false) : takeSeq objs T B = takeSeq objs [] B := by
+  rw [takeSeq_restrict (selectable B) B objs T (fun _ h => h), takeSeq_restrict (selectable B) B objs [] (fun _ h => h)]
+  congr 1
+  simp only [List.filter_nil]
+  rw [List.filter_eq_nil_iff]
+  intro i hi
+  rw [hT i hi]
+  simp
+
+/-- the scripts of one segment: its partial object, the segment's `wildcard_sections`, and the
+output sections of its partial script with their statements. -/
+structure SegScripts where
+  obj : Str
+  wild : Bool
+  groups : List (Str × List Line)
+
+def SegScripts.mainStmts (s : SegScripts) : List Line := s.groups.map fun g => mainStmt s.obj s.wild g.1
+def SegScripts.body (s : SegScripts) : List Line := s.groups.flatMap (·.2)
+def SegScripts.comps (objs : List InSec) (s : SegScripts) : List Comp := relinkBlocks objs s.obj [] s.groups
+def SegScripts.ok (s : SegScripts) : Prop :=
+  (s.groups.map (·.1)).Nodup ∧ s.groups.Pairwise (fun a b => grabs s.wild a.1 b.1 = false)
+
+theorem mainStmts_select_own (s : SegScripts) (i : InSec) (h : selectable s.mainStmts i = true) : (decide (i.path = s.obj)) = true := by
+  unfold selectable SegScripts.mainStmts at h
+  rw [List.any_map] at h
+  obtain ⟨g, _, hg⟩ := List.any_eq_true.1 h
+  simp only [Function.comp, mainStmt] at hg
+  unfold selects at hg
+  simp only [Bool.and_eq_true, decide_eq_true_eq] at hg
+  simp [hg.1.1]
+
+theorem comps_obj (objs : List InSec) (s : SegScripts) : ∀ c ∈ s.comps objs, c.sec.path = s.obj := by
+  intro c hc
+  have := (relinkBlocks_obj objs s.obj s.groups [] c hc).1
+  unfold Comp.sec
+  exact this
+
+/-- the main script over the composites of all partial objects: the statements of every segment
+select the composites of that segment's object, in order. -/
+theorem main_selects_document (objs : List InSec) : ∀ (segs : List SegScripts) (pre : List InSec) (TM : List InSec),
+    (∀ s ∈ segs, s.ok) → (segs.map (·.obj)).Nodup →
+    (∀ x ∈ pre, ∀ s ∈ segs, x.path ≠ s.obj) → (∀ x ∈ TM, ∀ s ∈ segs, x.path ≠ s.obj) →
+    takeSeq (pre ++ (segs.flatMap fun s => (s.comps objs).map (·.sec))) TM (segs.flatMap (·.mainStmts))
+      = segs.flatMap fun s => (s.comps objs).map (·.sec) := by
+  intro segs
+  induction segs with
+  | nil => intro pre TM _ _ _ _; simp [takeSeq]
+  | cons s rest ih =>
+    intro pre TM hok hnd hpre hTM
+    have hnd' := List.nodup_cons.1 hnd
+    simp only [List.flatMap_cons]
+    rw [takeSeq_append]
+    -- the statements of `s` over the whole table = over the composites of `s` alone
+    have hfirst : takeSeq (pre ++ ((s.comps objs).map (·.sec) ++ rest.flatMap fun s => (s.comps objs).map (·.sec))) TM s.mainStmts
+        = (s.comps objs).map (·.sec) := by
+      rw [takeSeq_restrict (fun i => decide (i.path = s.obj)) s.mainStmts _ TM (mainStmts_select_own s)]
+      have hL : (pre ++ ((s.comps objs).map (·.sec) ++ rest.flatMap fun s => (s.comps objs).map (·.sec))).filter (fun i => decide (i.path = s.obj))
+          = (s.comps objs).map (·.sec) := by
+        rw [List.filter_append, List.filter_append]
+        have h1 : pre.filter (fun i => decide (i.path = s.obj)) = [] := by
+          rw [List.filter_eq_nil_iff]
+          intro x hx
+          simp [hpre x hx s List.mem_cons_self]
+        have h2 : ((s.comps objs).map (·.sec)).filter (fun i => decide (i.path = s.obj)) = (s.comps objs).map (·.sec) := by
+          rw [List.filter_eq_self]
+          intro x hx
+          obtain ⟨c, hc, rfl⟩ := List.mem_map.1 hx
+          simp [comps_obj objs s c hc]
+        have h3 : (rest.flatMap fun s => (s.comps objs).map (·.sec)).filter (fun i => decide (i.path = s.obj)) = [] := by
+          rw [List.filter_eq_nil_iff]
+          intro x hx
+          obtain ⟨s', hs', hx'⟩ := List.mem_flatMap.1 hx
+          obtain ⟨c, hc, rfl⟩ := List.mem_map.1 hx'
+          have : c.sec.path = s'.obj := comps_obj objs s' c hc
+          have hne : s'.obj ≠ s.obj := fun e => hnd'.1 (List.mem_map.2 ⟨s', hs', e⟩)
+          simp [this, hne]
+        rw [h1, h2, h3]
+        simp
+      have hT : TM.filter (fun i => decide (i.path = s.obj)) = [] := by
+        rw [List.filter_eq_nil_iff]
+        intro x hx
+        simp [hTM x hx s List.mem_cons_self]
+      rw [hL, hT]
+      have := main_selects_own objs s.obj s.wild s.groups [] [] (hok s List.mem_cons_self).1 (fun _ _ h => nomatch h) (hok s List.mem_cons_self).2
+      simpa [SegScripts.comps, SegScripts.mainStmts] using this
+    rw [hfirst]
+    congr 1
+    have := ih (pre ++ (s.comps objs).map (·.sec)) (TM ++ (s.comps objs).map (·.sec))
+      (fun s' hs' => hok s' (List.mem_cons_of_mem _ hs')) hnd'.2
+      (by
+        intro x hx s' hs'
+        rcases List.mem_append.1 hx with hx | hx
+        · exact hpre x hx s' (List.mem_cons_of_mem _ hs')
+        · obtain ⟨c, hc, rfl⟩ := List.mem_map.1 hx
+          rw [comps_obj objs s c hc]
+          exact fun e => hnd'.1 (List.mem_map.2 ⟨s', hs', e.symm⟩))
+      (by
+        intro x hx s' hs'
+        rcases List.mem_append.1 hx with hx | hx
+        · exact hTM x hx s' (List.mem_cons_of_mem _ hs')
+        · obtain ⟨c, hc, rfl⟩ := List.mem_map.1 hx
+          rw [comps_obj objs s c hc]
+          exact fun e => hnd'.1 (List.mem_map.2 ⟨s', hs', e.symm⟩))
+    rw [List.append_assoc] at this
+    exact this
+
+/-- the one-step link of the statements of all segments, when no input section is selectable
+by the statements of two segments: each segment's statements take what they take alone. -/
+theorem one_step_document (objs : List InSec) : ∀ (segs : List SegScripts) (T : List InSec),
+    segs.Pairwise (fun a b => ∀ i ∈ objs, selectable a.body i = true → selectable b.body i = false) →
+    (∀ i ∈ T, ∀ s ∈ segs, selectable s.body i = false) →
+    takeSeq objs T (segs.flatMap (·.body)) = segs.flatMap fun s => takeSeq objs [] s.body := by
+  intro segs
+  induction segs with
+  | nil => intro T _ _; simp [takeSeq]
+  | cons s rest ih =>
+    intro T hpw hT
+    have hpw' := List.pairwise_cons.1 hpw
+    simp only [List.flatMap_cons]
+    rw [takeSeq_append, takeSeq_fresh objs s.body T (fun i hi => hT i hi s List.mem_cons_self)]
+    congr 1
+    apply ih _ hpw'.2
+    intro i hi s' hs'
+    rcases List.mem_append.1 hi with hi | hi
+    · exact hT i hi s' (List.mem_cons_of_mem _ hs')
+    · obtain ⟨h1, h2⟩ := takeSeq_mem objs s.body [] i hi
+      exact hpw'.1 s' hs' i h1 h2
+
+theorem comps_sec_nodup (objs : List InSec) : ∀ (segs : List SegScripts), (∀ s ∈ segs, s.ok) → (segs.map (·.obj)).Nodup →
+    ((segs.flatMap fun s => s.comps objs).map (·.sec)).Nodup := by
+  intro segs
+  induction segs with
+  | nil => intro _ _; simp
+  | cons s rest ih =>
+    intro hok hnd
+    have hnd' := List.nodup_cons.1 hnd
+    simp only [List.flatMap_cons, List.map_append]
+    refine List.nodup_append.2 ⟨?_, ih (fun s' hs' => hok s' (List.mem_cons_of_mem _ hs')) hnd'.2, ?_⟩
+    · -- within one object: different names
+      have hsub := relinkBlocks_names objs s.obj s.groups []
+      have hn : ((s.comps objs).map (·.name)).Nodup := List.Nodup.sublist hsub (hok s List.mem_cons_self).1
+      rw [List.nodup_iff_pairwise_ne] at hn ⊢
+      rw [List.pairwise_map] at hn ⊢
+      refine List.Pairwise.imp_of_mem ?_ hn
+      intro a b _ _ hne e
+      apply hne
+      unfold Comp.sec at e
+      injection e
+    · intro x hx y hy e
+      subst e
+      obtain ⟨c, hc, rfl⟩ := List.mem_map.1 hx
+      obtain ⟨c', hc', e'⟩ := List.mem_map.1 hy
+      obtain ⟨s', hs', hcs'⟩ := List.mem_flatMap.1 hc'
+      have h1 := comps_obj objs s c hc
+      have h2 := comps_obj objs s' c' hcs'
+      rw [e'] at h2
+      exact hnd'.1 (List.mem_map.2 ⟨s', hs', h2.symm.trans h1⟩)
+
+/-- **C11, two-step clause (whole documents)**: every segment has its own partial object, its
+group names are pairwise different and no group's pattern matches a later group's name, and no
+input section is selectable by the statements of two segments (no file listed in two segments).
+Then linking every partial script relocatably and the main script over the partial objects puts
+all input sections in exactly the order of the one-step link — for every object table. -/
+theorem two_step_document_order (objs : List InSec) (segs : List SegScripts)
+    (hok : ∀ s ∈ segs, s.ok) (hobj : (segs.map (·.obj)).Nodup)
+    (hdisj : segs.Pairwise (fun a b => ∀ i ∈ objs, selectable a.body i = true → selectable b.body i = false)) :
+    expand (segs.flatMap fun s => s.comps objs)
+        (takeSeq ((segs.flatMap fun s => s.comps objs).map (·.sec)) [] (segs.flatMap (·.mainStmts)))
+      = takeSeq objs [] (segs.flatMap (·.body)) := by
+  have hmain := main_selects_document objs segs [] [] hok hobj (fun _ h => nomatch h) (fun _ h => nomatch h)
+  simp only [List.nil_append] at hmain
+  have hmap : (segs.flatMap fun s => s.comps objs).map (·.sec) = segs.flatMap fun s => (s.comps objs).map (·.sec) := by
+    rw [List.map_flatMap]
+  rw [hmap, hmain, ← hmap, expand_self _ (comps_sec_nodup objs segs hok hobj),
+    one_step_document objs segs [] hdisj (fun _ h => nomatch h), List.flatMap_assoc]
+  apply flatMap_congr_mem
+  intro s _
+  exact relinkBlocks_items objs s.obj s.groups []
+
+/-- the same for the scripts themselves: partial scripts whose output sections are the segments'
+groups, a main script part whose statements inside output sections are the segments' statements
+for their partial objects, an ordinary script part holding the segments' own statements. -/
+theorem two_step_document_same_order (objs : List InSec) (segs : List SegScripts)
+    (partials : List (Str × List Line)) (mainPart ordinaryPart : List Line)
+    (hP : (partials.map fun p => (p.1, blocksOf p.2)) = segs.map fun s => (s.obj, s.groups))
+    (hM : blockInputs false mainPart = segs.flatMap (·.mainStmts)) (hMp : ∀ l ∈ mainPart, plain l = true)
+    (hO : takeSeq objs [] (blockInputs false ordinaryPart) = takeSeq objs [] (segs.flatMap (·.body)))
+    (hOp : ∀ l ∈ ordinaryPart, plain l = true)
+    (hok : ∀ s ∈ segs, s.ok) (hobj : (segs.map (·.obj)).Nodup)
+    (hdisj : segs.Pairwise (fun a b => ∀ i ∈ objs, selectable a.body i = true → selectable b.body i = false)) :
+    twoStep objs partials mainPart = oneStep objs ordinaryPart := by
+  have hc : (partials.flatMap fun p => relink objs p.1 p.2) = segs.flatMap fun s => s.comps objs := by
+    have h1 : (partials.flatMap fun p => relink objs p.1 p.2)
+        = (partials.map fun p => (p.1, blocksOf p.2)).flatMap fun q => relinkBlocks objs q.1 [] q.2 := by
+      rw [List.flatMap_map]; rfl
+    rw [h1, hP, List.flatMap_map]
+    rfl
+  unfold twoStep oneStep
+  simp only [hc]
+  rw [takes_plain _ _ _ _ hMp, takes_plain _ _ _ _ hOp, hM, hO]
+  exact two_step_document_order objs segs hok hobj hdisj
+
 /-! ### ... and not otherwise: a listed section whose name starts with an earlier listed name -/
 
 def exA (sec : Str) : InSec := ⟨c!"a.o", none, sec, 4, 4⟩
